@@ -7,6 +7,7 @@ import (
 	"go/types"
 	"os"
 	"path/filepath"
+	"regexp"
 	"sort"
 	"strings"
 	"sync"
@@ -135,7 +136,7 @@ func LoadEngine(repo string) (*Engine, error) {
 func (e *Engine) typeId(t types.Type) int {
 	e.mu.Lock()
 	defer e.mu.Unlock()
-	k := types.TypeString(t, nil)
+	k := canonTypeString(t)
 	if id, ok := e.typeIds[k]; ok {
 		return id
 	}
@@ -321,4 +322,16 @@ func (e *Engine) immutableInit(o *types.Var) ast.Expr {
 		}
 	}
 	return e.globalInit[o]
+}
+
+var reByte = regexp.MustCompile(`\bbyte\b`)
+var reRune = regexp.MustCompile(`\brune\b`)
+
+// canonTypeString: type identity up to the predeclared aliases byte/rune.
+func canonTypeString(t types.Type) string {
+	k := types.TypeString(t, nil)
+	k = reByte.ReplaceAllString(k, "uint8")
+	k = reRune.ReplaceAllString(k, "int32")
+	k = strings.ReplaceAll(k, "interface{}", "any")
+	return k
 }
